@@ -8,6 +8,7 @@
    the tick body does not suspend, tokio is "a woken task is polled again". *)
 From Coq Require Import List Arith Bool NArith Lia.
 From HV Require Import Chan.ModelWake Chan.ModelWakeChk Chan.PWake.
+From HV Require Chan.ModelWake2 Chan.ModelWake2Chk Chan.PWake2a Chan.PWake2.
 Import ListNotations.
 
 (* Inv1: in every reachable state, if data arrived (store) and no tick has started since, the
@@ -44,6 +45,94 @@ Theorem C27_notify_first_refuted :
             runner_enabled s = false /\ mid s = 0.
 Proof. exact notify_first_refuted. Qed.
 Print Assumptions C27_notify_first_refuted.
+
+(* ================================================================== the wider model
+   Chan/ModelWake2.v: the same runner together with the bookkeeping that surrounds the wake path
+   in this tree: the external event queue (items queued in a source + the WakeState waker
+   registered with it by source_stream's drain-until-Pending inside the tick body; a producer's
+   push enqueues and, if registered, takes the waker and runs wake_by_ref), raw external wakers,
+   and defer_tick (schedule_subgraph(true) by the runner at the end of a tick body that leaves
+   deferred data).  `pending s` = items are queued, or a raw wake was issued, or deferred data
+   waits -- and no tick has started since.  Any number of producers / wakers, all interleavings. *)
+Module W2.
+Import Chan.ModelWake2 Chan.PWake2a Chan.PWake2.
+
+(* safety half: pending input is never stranded (parked, unwoken, no half of a wake pending) *)
+Theorem pending_never_stuck : forall s, reach2 s -> pending s = true -> stuck2 s = false.
+Proof. exact never_missed2. Qed.
+
+(* pending input => the flag is set / the runner is on the straight path to a tick start
+   (`armed`), or a wake_by_ref is in progress whose store is still to come *)
+Theorem pending_armed_or_store : forall s, reach2 s -> pending s = true ->
+  armed s = true \/ 0 < pre s.
+Proof. intros s R. apply pending_armed_or_store. apply reach2_good. exact R. Qed.
+
+(* armed => the runner can take a step, or the pending notification can and then the runner can *)
+Theorem armed_enabled : forall s, reach2 s -> armed s = true ->
+  runner_enabled s = true \/
+  (0 < mid s /\ forall s' e, step2 s WNotify = Some (s', e) -> runner_enabled s' = true).
+Proof. intros s R. apply armed_enabled. apply reach2_good. exact R. Qed.
+
+(* LIVENESS HALF, with an explicit bound.  From every reachable armed state (by the two theorems
+   above: from every reachable state with pending input, after at most the one store step of the
+   wake_by_ref in progress), every execution fragment -- any interleaving with producers and
+   wakers -- that contains rank2 s <= 7 runner steps contains a tick start, and the first such
+   tick consumes at least everything that was queued in s.  Fairness assumption: the runner task
+   is polled after it is woken (runner steps are taken while `runner_enabled`; C27_armed_enabled
+   shows the runner is enabled, or becomes so by the notify of the wake in progress). *)
+Theorem liveness_bound : forall s tr sf t, reach2 s -> armed s = true ->
+  run2 s tr = Some (sf, t) -> 7 <= count_runner2 tr ->
+  exists k, t = Some k /\ q s <= k.
+Proof.
+  intros s tr sf t R A Rn C. eapply progress2; [exact A|apply le_n|exact Rn|].
+  pose proof (rank2_bound s A). Lia.lia.
+Qed.
+
+(* non-vacuity: a reachable state with a queued item, the runner parked, the wake in progress;
+   seven more runner steps (after the notify) start the tick that consumes the item *)
+Example liveness_example :
+  exists s, reach2 s /\ pending s = true /\ armed s = true /\ p2 s = Parked /\ q s = 1 /\
+    run2 s [WNotify; Runner; Runner; Runner; Runner; Runner; Runner] <> None /\
+    option_map snd (run2 s [WNotify; Runner; Runner; Runner; Runner; Runner; Runner]) = Some (Some 1).
+Proof.
+  assert (R : forall tr s sf t, reach2 s -> run2 s tr = Some (sf, t) -> reach2 sf).
+  { induction tr as [|l tr IH]; intros s sf t Rs W; cbn in W.
+    - inversion W; subst. exact Rs.
+    - destruct (step2 s l) as [[s1 e]|] eqn:St; [|discriminate].
+      destruct (run2 s1 tr) as [[sf' t2]|] eqn:W2; [|discriminate]. inversion W; subst.
+      eapply IH; [eapply r2_step; eassumption|exact W2]. }
+  destruct (run2 init2 [Runner; Runner; Runner; Runner; Runner; Runner; Runner; Runner; Push; WStore])
+    as [[s t]|] eqn:E; [|vm_compute in E; discriminate].
+  exists s. split; [eapply R; [apply r2_init|exact E]|].
+  vm_compute in E. injection E as Es Et. subst s. repeat split; try reflexivity; discriminate.
+Qed.
+End W2.
+(* the same statements at top level (fully qualified names of the wider model) *)
+Theorem C27_pending_never_stuck : forall s,
+  ModelWake2.reach2 s -> ModelWake2.pending s = true -> ModelWake2.stuck2 s = false.
+Proof. exact W2.pending_never_stuck. Qed.
+Print Assumptions C27_pending_never_stuck.
+
+Theorem C27_pending_armed_or_store : forall s,
+  ModelWake2.reach2 s -> ModelWake2.pending s = true ->
+  ModelWake2.armed s = true \/ 0 < ModelWake2.pre s.
+Proof. exact W2.pending_armed_or_store. Qed.
+Print Assumptions C27_pending_armed_or_store.
+
+Theorem C27_armed_enabled : forall s,
+  ModelWake2.reach2 s -> ModelWake2.armed s = true ->
+  ModelWake2.runner_enabled s = true \/
+  (0 < ModelWake2.mid s /\
+   forall s' e, ModelWake2.step2 s ModelWake2.WNotify = Some (s', e) -> ModelWake2.runner_enabled s' = true).
+Proof. exact W2.armed_enabled. Qed.
+Print Assumptions C27_armed_enabled.
+
+Theorem C27_liveness_bound : forall s tr sf t,
+  ModelWake2.reach2 s -> ModelWake2.armed s = true ->
+  ModelWake2.run2 s tr = Some (sf, t) -> 7 <= ModelWake2.count_runner2 tr ->
+  exists k, t = Some k /\ ModelWake2.q s <= k.
+Proof. exact W2.liveness_bound. Qed.
+Print Assumptions C27_liveness_bound.
 
 (* ------------------------------------------------------------------ non-vacuity / windows *)
 
